@@ -6,6 +6,17 @@ import subprocess
 ROOT = os.path.dirname(os.path.dirname(os.path.abspath(__file__)))
 
 CHECKS = {
+    "C17": dict(
+        technique="TLC-executed abstract interpreter (ExprAbs.tla) over the jaxprs of forward/inverse: derived cells, constant "
+                  "(saturated) cells; per-cell concrete obligations with a backward-stable round-trip tolerance; Transforms.tla "
+                  "enumerates every chain/mask/pytree over finite bijections, replayed exactly (eager and jit)",
+        category="exploration", design="4/C17",
+        text="Bounds, monotonicity and both round trips are checked on every derived cell (points, ulps, ends, log-spaced and seeded "
+             "interior doubles on [-1e6, 1e6]) for sigmoid/softplus/negsoftplus with three bound sets, affine and three chains; "
+             "composition order, masking and pytree routing are model-checked on finite bijections and compared with the real "
+             "ChainTransform/MaskedTransform/ParamTransform built from CustomTransform lookup tables.",
+        note="Exact over the reals per cell, sampled over doubles; rounding-limited flat regions are not held against the code, "
+             "saturation that exact arithmetic would resolve is."),
     "C06": dict(
         technique="TLA+ specification of the time loop (Integrate.tla: t_max padding/truncation, nested checkpoint scan, "
                   "recordings, returned state) over integer probe dynamics, model-checked by TLC for every layout; every "
